@@ -96,7 +96,9 @@ pub fn clone_from_step<const NT: usize, const NS: usize>() {
         se = st_s.e;
         src_items = st_s.items;
     }
-    tgt.clone_from(&src);
+    // RawTable::clone_from is what HashMap/HashSet::clone_from forward to (HashTable has no
+    // clone_from of its own: it would be `*self = source.clone()`)
+    Clone::clone_from(hv::raw_of_table(&mut tgt), hv::raw_of_table_ref(&src));
     let q = any_id();
     assert!(drops(q) == st_t.mult(q) as u8); // old contents of the target dropped exactly once
     assert!(tgt.len() == src_items && src.len() == src_items);
